@@ -155,9 +155,13 @@ func c13Binding(c *C) {
 		return sb.String()
 	}
 	variants := map[string]map[string]string{
-		"local":                  {"/main.tpl": m.def("mac", false) + callSrc("mac")},
-		"imported":               {"/main.tpl": "{% import \"/lib/macros.tpl\" mac %}" + callSrc("mac"), "/lib/macros.tpl": "ignored text " + m.def("mac", true) + m.def("other", true)},
-		"aliased":                {"/main.tpl": "{% import \"lib/macros.tpl\" other, mac as alias %}" + callSrc("alias"), "/lib/macros.tpl": m.def("mac", true) + " " + m.def("other", true)},
+		"local":    {"/main.tpl": m.def("mac", false) + callSrc("mac")},
+		"imported": {"/main.tpl": "{% import \"/lib/macros.tpl\" mac %}" + callSrc("mac"), "/lib/macros.tpl": "ignored text " + m.def("mac", true) + m.def("other", true)},
+		"aliased":  {"/main.tpl": "{% import \"lib/macros.tpl\" other, mac as alias %}" + callSrc("alias"), "/lib/macros.tpl": m.def("mac", true) + " " + m.def("other", true)},
+		// every order of aliased and plain entries in one import list
+		"alias-then-plain":       {"/main.tpl": "{% import \"lib/macros.tpl\" other as first, mac %}" + callSrc("mac"), "/lib/macros.tpl": m.def("mac", true) + " " + strings.Replace(m.def("other", true), "{% endmacro %}", "OTHER{% endmacro %}", 1)},
+		"alias-plain-alias":      {"/main.tpl": "{% import \"/lib/macros.tpl\" other as o1, mac, other as o2 %}" + callSrc("mac"), "/lib/macros.tpl": strings.Replace(m.def("other", true), "{% endmacro %}", "OTHER{% endmacro %}", 1) + m.def("mac", true)},
+		"two-aliases":            {"/main.tpl": "{% import \"/lib/macros.tpl\" mac as a1, other as a2 %}" + callSrc("a1"), "/lib/macros.tpl": strings.Replace(m.def("other", true), "{% endmacro %}", "OTHER{% endmacro %}", 1) + m.def("mac", true)},
 		"local-exported-in-with": {"/main.tpl": "{% with unrelated=1 %}" + m.def("mac", true) + callSrc("mac") + "{% endwith %}"},
 	}
 	outs := map[string][2]execResult{}
@@ -355,6 +359,85 @@ func c13BoundedCase(c *C, i int) {
 	c.Nontrivial("bounded:" + c13Bounded[i])
 }
 
+// c13Overlap: the bound on macro recursion belongs to ONE execution. While one execution of a compiled template is
+// parked at the bottom of a deep (terminating) recursion, another execution of the same template recurses as deep as it
+// does alone, and a runaway recursion still stops at the same fixed depth as alone.
+func c13Overlap(c *C) {
+	r := c.R
+	dA, dB := r.Pick2([]int{400, 600, 900, 990}), r.Pick2([]int{300, 600, 900, 990})
+	imported := r.Bool()
+	lib := "{% macro rec(k) export %}{% if k > 0 %}({{ rec(k - 1) }}){% else %}[{{ park() }}]{% endif %}{% endmacro %}{% macro run(k) export %}{{ cnt() }}{{ run(k + 1) }}{% endmacro %}"
+	main := "{{ rec(d) }}|{% if runaway %}{{ run(0) }}{% endif %}"
+	files := map[string]string{"/lib.tpl": lib, "/main.tpl": strings.NewReplacer(" export", "").Replace(lib) + main}
+	if imported {
+		files["/main.tpl"] = "{% import \"/lib.tpl\" rec, run %}" + main
+	}
+	set, _ := newSet(files)
+	tpl, err := set.FromFile("/main.tpl")
+	if err != nil {
+		c.Fail("compile-error", D{"files": files, "error": err.Error()})
+		return
+	}
+	var calls int64
+	mk := func(d int, runaway bool, park func() string) pongo2.Context {
+		return pongo2.Context{"d": d, "runaway": runaway, "park": park, "cnt": func() string { atomic.AddInt64(&calls, 1); return "" }}
+	}
+	noPark := func() string { return "" }
+	wantA, eA := tpl.Execute(mk(dA, false, noPark))
+	wantB, eB := tpl.Execute(mk(dB, false, noPark))
+	if eA != nil || eB != nil {
+		c.Fail("terminating-recursion-refused", D{"files": files, "depths": []int{dA, dB}, "error": errStr(eA) + errStr(eB)})
+		return
+	}
+	_, eR := tpl.Execute(mk(3, true, noPark))
+	soloDepth := atomic.SwapInt64(&calls, 0)
+	if eR == nil {
+		c.Fail("recursion-not-bounded", D{"files": files})
+		return
+	}
+	entered, release := make(chan struct{}), make(chan struct{})
+	type res struct {
+		out string
+		err error
+	}
+	resA := make(chan res, 1)
+	go func() {
+		out, xerr := tpl.Execute(mk(dA, false, func() string { close(entered); <-release; return "" }))
+		resA <- res{out, xerr}
+	}()
+	select {
+	case <-entered:
+	case ra := <-resA:
+		c.Fail("terminating-recursion-refused", D{"files": files, "depth": dA, "output": q(truncStr(ra.out, 100)), "error": errStr(ra.err)})
+		return
+	}
+	outB, errB := execSpread(tpl, mk(dB, false, noPark), uint64(c.Idx))
+	_, errR := tpl.Execute(mk(3, true, noPark))
+	overlapDepth := atomic.SwapInt64(&calls, 0)
+	close(release)
+	ra := <-resA
+	c.Eval(6)
+	d := D{"files": files, "parked_execution_depth": dA, "second_execution_depth": dB, "imported": imported,
+		"why": "one execution of the compiled template was parked at the bottom of its recursion while the others ran"}
+	if errB != nil || outB != wantB {
+		d["second_execution"] = D{"out": q(truncStr(outB, 100)), "err": errStr(errB), "alone_len": len(wantB)}
+		c.Fail("terminating-recursion-refused", d)
+		return
+	}
+	if ra.err != nil || ra.out != wantA {
+		d["parked_execution"] = D{"out": q(truncStr(ra.out, 100)), "err": errStr(ra.err), "alone_len": len(wantA)}
+		c.Fail("terminating-recursion-refused", d)
+		return
+	}
+	if errR == nil || overlapDepth != soloDepth {
+		d["runaway_recursion"] = D{"err": errStr(errR), "depth_reached": overlapDepth, "depth_reached_alone": soloDepth}
+		c.Fail("recursion-depth-not-fixed", d)
+		return
+	}
+	c.Cover("overlapping_executions_recursion_bound")
+	c.Nontrivial(fmt.Sprintf("overlap:%d:%d:%v", dA, dB, imported))
+}
+
 func c13Plan(tier string) (rec, bounded, binding int) {
 	rec = len(c13Graphs)
 	if tier == "thorough" {
@@ -377,6 +460,8 @@ func c13Run(c *C) {
 		c13Recursion(c, c.Idx%len(c13Graphs), c.Idx >= len(c13Graphs))
 	case c.Idx < rec+bounded:
 		c13BoundedCase(c, c.Idx-rec)
+	case (c.Idx-rec-bounded)%400 == 3:
+		c13Overlap(c)
 	default:
 		c13Binding(c)
 	}
